@@ -17,7 +17,10 @@ RULE = ("case = accepted (sde_type, noise_type, method, options incl. grad_free 
         "ladder >= advertised strong order (read from the instantiated solver) - 0.25, and err(finest) <= err(coarsest) * "
         "2^-((order-0.25)*number of halvings); "
         "the advertised order itself must equal the documented table. Adaptive kind: errors for rtol=atol in "
-        "{1e-1..1e-4} are non-increasing within 10% and the tightest is <= half the loosest. Non-trivial = diffusion "
+        "{1e-1..1e-4} are non-increasing within 10% and the tightest is <= half the loosest (when there is something to "
+        "gain). Half of the cells use a horizon that is not a multiple of dt (clipped last step). Shared-options kind: a "
+        "history of Milstein solves sharing one options dict object must equal the same solves with fresh dicts, and the "
+        "dict must be unchanged. Non-trivial = diffusion "
         "not identically zero and the slope window has >= 4 points above 1e3*eps; distinct = distinct canonical case JSON.")
 ASSUMPTIONS = ["finite ladder inside a coefficient box with T*Lipschitz <~ 2 ('asymptotic regime'); one-sided (orders above "
                "the advertisement are accepted)",
@@ -39,11 +42,26 @@ def _case(draw, tier, adaptive=False):
     t0 = draw(st.sampled_from([0.0, 0.0, 0.5, -1.0]))
     return {"kind": "adaptive" if adaptive else "ladder", "combo": combo, "spec": spec, "t0": t0, "T": T,
             "entropy": draw(st.integers(0, 2 ** 31 - 2)), "y0seed": draw(st.integers(0, 2 ** 31 - 1)),
-            "kmax": 8 if tier == "quick" else 10, "paths": 2048 if tier == "quick" else 4096}
+            "kmax": 8 if tier == "quick" else 10, "paths": 2048 if tier == "quick" else 4096,
+            "clip": draw(st.booleans())}
+
+
+@st.composite
+def _shared_options_case(draw, tier):
+    """A history of solves that share one options dict object (the caller keeps `opts = dict(grad_free=True)` around)."""
+    n = draw(st.integers(2, 4))
+    combos = [c for c in sdes.accepted_combos(include_grad_free=True, all_levy=False) if c["method"] == "milstein"]
+    seq = []
+    for _ in range(n):
+        c = draw(st.sampled_from(combos))
+        seq.append({"combo": c, "spec": draw(sdes_closed.closed_specs(c["sde_type"], c["noise_type"], allow_nc=False))})
+    return {"kind": "shared_options", "seq": seq, "grad_free": draw(st.sampled_from([True, True, False])),
+            "entropy": draw(st.integers(0, 2 ** 31 - 2)), "y0seed": draw(st.integers(0, 2 ** 31 - 1))}
 
 
 def strategy(tier):
-    return st.one_of(_case(tier), _case(tier), _case(tier), _case(tier), _case(tier, adaptive=True))
+    return st.one_of(_case(tier), _case(tier), _case(tier), _case(tier), _case(tier, adaptive=True),
+                     _shared_options_case(tier))
 
 
 FAMILY_MATRIX = {
@@ -93,7 +111,7 @@ def enumerate_cases(tier):
             yield {"kind": "ladder", "combo": combo, "spec": spec, "t0": rnd.choice([0.0, 0.5, -1.0]),
                    "T": rnd.choice([0.5, 1.0, 0.75]), "entropy": rnd.randrange(2 ** 31 - 2),
                    "y0seed": rnd.randrange(2 ** 31), "kmax": 8 if tier == "quick" else 10,
-                   "paths": 2048 if tier == "quick" else 4096}
+                   "paths": 2048 if tier == "quick" else 4096, "clip": (idx + seed) % 2 == 0}
 
 
 def _solver_order(torchsde, sde, bm, combo):
@@ -110,8 +128,44 @@ def _slope(xs, ys):
     return sum((x - mx) * (y - my) for x, y in zip(xs, ys)) / sum((x - mx) ** 2 for x in xs)
 
 
+def _run_shared_options(case):
+    """Each solve of the history must be bit-identical to the same solve made with a fresh options dict, and the caller's
+    dict must come back unchanged: an options object is an input, not a place to keep state between calls."""
+    import torchsde
+    shared = {"grad_free": case["grad_free"]}
+    original = dict(shared)
+    B = 8
+    checks = 0
+    for i, item in enumerate(case["seq"]):
+        combo, spec = item["combo"], item["spec"]
+        sde = sdes_closed.compile_spec(spec, B)
+        y0 = sde.y0(B, case["y0seed"])
+        ts = torch.tensor([0.0, 0.5], dtype=torch.float64)
+        outs = []
+        for opts in (shared, dict(original)):
+            bm = torchsde.BrownianInterval(t0=0.0, t1=0.5, size=(B, spec["m"]), dtype=torch.float64,
+                                           entropy=case["entropy"] + i)
+            with torch.no_grad():
+                outs.append(torchsde.sdeint(sde, y0, ts, bm=bm, method="milstein", dt=0.125, options=opts))
+        checks += 1
+        sig = {"kind": "shared_options", "position": i}
+        if shared != original:
+            return Result(nontrivial=True, checks=checks, fail=Fail(
+                "options_dict_mutated", f"sdeint changed the caller's options dict from {original} to {shared} "
+                                        f"(solve #{i}: {combo['sde_type']}/{combo['noise_type']}/milstein)", sig))
+        if not torch.equal(outs[0], outs[1]):
+            return Result(nontrivial=True, checks=checks, fail=Fail(
+                "options_dict_leak", f"solve #{i} ({combo['sde_type']}/{combo['noise_type']}/milstein) gives a different "
+                                     f"result with the options dict shared with earlier solves than with a fresh one",
+                sig))
+    kinds = {it["combo"]["noise_type"] for it in case["seq"]}
+    return Result(nontrivial=len(kinds) >= 2, labels=["kind=shared_options"], checks=checks)
+
+
 def run_case(case):
     import torchsde
+    if case["kind"] == "shared_options":
+        return _run_shared_options(case)
     combo, spec = case["combo"], case["spec"]
     nc = spec["family"] == "triangular_nc"
     kmax = case.get("kmax", 8)
@@ -126,7 +180,7 @@ def run_case(case):
            "grad_free": bool(combo["options"]), "family": spec["family"], "kind": case["kind"]}
     label = f"{combo['sde_type']}/{combo['noise_type']}/{combo['method']}" + ("+grad_free" if combo["options"] else "")
     labels = [label, f"family={spec['family']}" + (f":{spec['phi']}" if spec["family"] == "reducible" else ""),
-              f"levy={combo['levy']}"]
+              f"levy={combo['levy']}"] + (["clipped_last_step"] if case.get("clip") and case["kind"] == "ladder" else [])
     opts = dict(combo["options"]) or None
     ks = list(range(3, (kmax if nc else kmax + 1)))
     with torch.no_grad():
@@ -171,7 +225,8 @@ def run_case(case):
             "advertised_order_changed", f"{label} advertises strong order {adv}, documentation says {doc}", sig))
     errs = []
     for k in ks:
-        dt = case["T"] * 2.0 ** -k
+        # "clip": the horizon is not a multiple of dt, so the last step is clipped to ts[-1] (shorter than dt)
+        dt = case["T"] * 2.0 ** -k * (0.93 if case.get("clip") else 1.0)
         with torch.no_grad():
             ys = torchsde.sdeint(sde, y0, ts, bm=bm, method=combo["method"], dt=dt, options=opts)
         errs.append(err_of(ys))
